@@ -27,7 +27,7 @@ fn id_of(w: Which) -> &'static str {
 }
 
 fn is_control_op(info: &StepInfo, pre: &CpuState) -> bool {
-    if info.halt || pre.halted || pre.no_sample || info.ignored_prefixes > 0 {
+    if info.halt || pre.halted || pre.no_sample {
         return true;
     }
     match (info.page, info.opcode) {
@@ -215,6 +215,11 @@ impl CpuProp {
                     }
                 }
                 Which::C03 => {
+                    if let Some(d) = out.div.as_ref().filter(|d| d.kind == DivKind::Bus) {
+                        // registers agree but the sequence of bus cycles differs: C03's business as well
+                        let f = Fail::new("C03.cycles", &witness(&d.info, "cycles"), format!("step {} ({} {:02X} variant {}): {}", d.step, page_name(d.info.page), d.info.opcode, d.info.variant, d.what));
+                        return Err((f, d.single.clone()));
+                    }
                     if out.div.is_some() {
                         // value divergence: C01/C02 matter; lock-step cannot continue
                         ctx.probe("truncated_by_value_divergence");
@@ -226,6 +231,10 @@ impl CpuProp {
                     }
                 }
                 Which::C02 => {
+                    if out.unaligned {
+                        ctx.probe("truncated_by_value_divergence");
+                        return Ok(());
+                    }
                     if let Some(d) = &out.sampling_div {
                         let f = Fail::new("C02.sequencing", &witness(&d.info, &d.what), format!("step {} ({} {:02X}, INT={} NMI={}): {}", d.step, page_name(d.info.page), d.info.opcode, out.lines.1, out.lines.0, d.what));
                         return Err((f, d.single.clone()));
@@ -236,6 +245,16 @@ impl CpuProp {
                             let f = Fail::new(&site, &witness(&out.info, "monitor"), text);
                             return Err((f, single.unwrap_or_default()));
                         }
+                    }
+                    let entry_part = |ev: &Vec<Ev>| -> Vec<(u8, u16, u8)> {
+                        let first_m1 = ev.iter().position(|e| matches!(e, Ev::Rd { clk: 4, .. })).unwrap_or(ev.len());
+                        ev[..first_m1].iter().filter_map(|e| e.value()).collect()
+                    };
+                    if let Some(d) = out.div.as_ref().filter(|d| d.kind == DivKind::Bus && (d.info.accepted == Accepted::None || entry_part(&d.impl_ev) == entry_part(&d.ref_ev))) {
+                        // same registers, different bus cycles, no interrupt entry involved: C01/C03's matter
+                        let _ = d;
+                        ctx.probe("truncated_by_value_divergence");
+                        return Ok(());
                     }
                     if let Some(d) = &out.div {
                         // attribution: does the same single-instruction case diverge with the lines held inactive?
